@@ -1,8 +1,9 @@
 """C17 - saving and loading a mesh round-trips geometry, connectivity and tags.
 
-M : spec/MC_C17*.cfg - TLC enumerates small meshes x every facet subset x every orientation flag on interior facets
+M : spec/MC_C17.cfg - TLC enumerates small meshes x every facet subset x every orientation flag on interior facets
     x sub-domain subsets and checks FromMeshioImpl(ToMeshioImpl(m)) = m (as designations) on the transcription of
-    _encode_cell_data / _decode_cell_data / to_meshio / from_meshio (spec/TagCodec.tla).
+    _encode_cell_data / _decode_cell_data / to_meshio / from_meshio (spec/TagCodec.tla); MC_C17_oriented.cfg keeps
+    the pre-repair decoder as a regression model that TLC must refute.
 R : the scenarios TLC exports are executed on the real code (in memory and through real files).
 V : universe and random meshes (first and second order, curved, renumbered, random float coordinates) with random
     tag sets and user data go through every format; the abstract meshes before / after are validated by
@@ -15,7 +16,7 @@ import os
 import numpy as np
 
 from .. import universe as U
-from ..core import guarded
+from ..core import guarded, MachineryError
 from ..tags_common import common_scale, conn_tables, mesh_am, mesh_checksums, points_enc, quiet, values_enc_pair
 
 RULE = ('scenario = one mesh (class, order, coordinates, cell list) with one set of named sub-domains and named '
@@ -170,7 +171,7 @@ def _interior(m):
 
 def _names(rng, k, kind):
     pool = ['left', 'inlet', 'Gamma_1', 'b', 'x-y', 'outer.wall', 'a_rather_long_boundary_name_0123456789', 'UP',
-            'k9', 'interface']
+            'k9', 'interface', 'wall:inner', 'zone:1:a']
     pick = rng.choice(len(pool), size=k, replace=False)
     return [pool[j] + ('' if kind == 'b' else '_s') for j in pick]
 
@@ -322,12 +323,6 @@ def generate(tier, seed):
             if (n + rep) % (2 if thorough else 4) == 0:
                 recs.append(make_recipe(kind, p, t, fam + '-float', rng, 1 + (n // 4) % 2 if t.shape[1] <= 8 else 1,
                                         ['mem', 'gmsh22', 'gmsh41', 'vtk', 'vtu', 'npz'], floats=True))
-    # names containing the separator of the cell-data keys ("skfem:b:<name>")
-    for (kind, p, t, fam) in meshes[:2]:
-        r = make_recipe(kind, p, t, 'colon-name', rng, 1, ['mem', 'vtu', 'gmsh22', 'npz', 'dict'], userdata=False)
-        r['bnd'] = {'wall:inner': {'f': [0, 1], 'ori': None}}
-        r['sub'] = {'zone:1': [0]}
-        recs.append(r)
     # meshes without any tag (None must not turn into an error), empty tag arrays
     for (kind, p, t, fam) in meshes[::5]:
         recs.append(make_recipe(kind, p, t, fam + '-untagged', rng, 1, ALL_FMTS, notags=True))
@@ -340,16 +335,18 @@ def scenario(sid, rec):
 
 
 def model(ctx):
-    """M: three configurations of MC_C17; returns the TLC-exported scenarios for R."""
+    """M: MC_C17.cfg (current decoder, full scope) must hold; MC_C17_oriented.cfg (the decoder before commit 2ed791f,
+    kept as a regression model) must be refuted by TLC.  Returns the TLC-exported scenarios for R."""
     out = os.path.join(ctx.scratch, 'c17_export.json')
     env = {'OUT_FILE': out, 'TIER': ctx.tier}
     to = 1500 if ctx.tier == 'thorough' else 400
-    ctx.model_must_hold('MC_C17', 'MC_C17.cfg', env=env, timeout=to, xmx='4g', label='paired tags, DecodeImpl of today')
-    env2 = {'OUT_FILE': '', 'TIER': ctx.tier}
-    ctx.model_must_hold('MC_C17', 'MC_C17_fixed.cfg', env=env2, timeout=to, xmx='4g',
-                        label='every facet subset x every flag assignment, DecodeFixed')
-    ctx.model_must_hold('MC_C17', 'MC_C17_oriented.cfg', env=env2, timeout=to, xmx='4g',
-                        label='every facet subset x every flag assignment, DecodeImpl of today (finding #9)')
+    ctx.model_must_hold('MC_C17', 'MC_C17.cfg', env=env, timeout=to, xmx='4g',
+                        label='every facet subset x every flag assignment x sub-domain subsets, DecodeImpl (current code)')
+    old = ctx.tlc_model('MC_C17', 'MC_C17_oriented.cfg', env={'OUT_FILE': '', 'TIER': ctx.tier}, timeout=to, xmx='4g',
+                        label='regression model: decoder before 2ed791f (facets sorted, owner cells not permuted)')
+    ctx.notes['old_decoder_refuted_by_tlc'] = bool(old['violated'])
+    if not old['violated']:
+        raise MachineryError('MC_C17_oriented.cfg: TLC no longer refutes the pre-repair decoder DecodeImplOld')
     recs = []
     if os.path.exists(out):
         docs = json.load(open(out))
@@ -387,7 +384,7 @@ def run(ctx):
     n_tlc = len(recs)
     recs += generate(ctx.tier, ctx.seed)
     scs = [scenario(f'C17-{k}', r) for k, r in enumerate(recs)]
-    ctx.validate('TraceC17', scs)
+    ctx.validate('TraceC17', scs, jvms=8)
     keys = {json.dumps([r['cls'], r.get('order', 1), r['p'], r['t'], r.get('bnd'), r.get('bndv'), r.get('sub')],
                        sort_keys=True) for r in recs if _nontrivial(r)}
     ctx.notes['distinct_nontrivial'] = len(keys)
@@ -401,7 +398,7 @@ def run(ctx):
     ctx.notes['events_per_format'] = fm
     return ctx.finish(rule=RULE, assumptions=[
         'orientation flag 1 is only put on interior facets (flag 1 on a boundary facet has no owner cell)',
-        'tag names are drawn from [A-Za-z0-9_.-] (plus one family with ":"); names with blanks are not explored '
+        'tag names are drawn from [A-Za-z0-9_.:-]; names with blanks are not explored '
         '(meshio refuses them for VTK)',
         'dictionary / JSON forms are exercised for first-order meshes only, as the statement says',
         'text formats with limited precision (ASCII .vtu) get dyadic coordinates and data only',
@@ -416,5 +413,5 @@ def replay(ctx, doc):
         ctx.model_must_hold('MC_C17', sc['recipe']['cfg'], env={'OUT_FILE': '', 'TIER': ctx.tier}, timeout=1500)
         return ctx.finish(rule=RULE)
     sc2 = scenario(sc['id'], sc['recipe'])
-    ctx.validate('TraceC17', [sc2])
+    ctx.validate('TraceC17', [sc2], jvms=8)
     return ctx.finish(rule=RULE)
